@@ -151,6 +151,9 @@ func c16Exhaustive(ctx *core.Ctx) {
 					la.Extra = false
 					la.Services = []c16Service{svc}
 					la.Services[0].YEnv = &c16YEnv{List: &[]c16Item{{K: "C"}}}
+					la.Layout = []string{"", "include", "extends", "extends-split"}[(x+2*y+3*z)%4]
+					la.Methods = (x+y)%2 == 0
+					ctx.Count("file-states-load-layout-" + la.Layout)
 					ctx.Add("c16.load", la)
 				}
 			}
@@ -498,6 +501,36 @@ func c16RandomLoad(ctx *core.Ctx) {
 		if a.SkipResolveEnvironment {
 			ctx.Count("load-skip-resolve-environment")
 		}
+		// round 6: where the services are written (main file / included file in inc/ / inherited from base/b.yaml, whole
+		// or split), and the second call site of the resolution
+		switch i % 8 {
+		case 1:
+			a.Layout = "include"
+		case 3:
+			a.Layout = "extends"
+		case 5, 7:
+			a.Layout = "extends-split"
+		}
+		if i%3 == 0 && !a.SkipResolveEnvironment {
+			a.Methods = true
+			ctx.Count("load-second-call-site")
+		}
+		if a.Layout != "" {
+			ctx.Count("load-layout-" + a.Layout)
+			for _, s := range a.Services {
+				for _, f := range s.EnvFiles {
+					switch {
+					case f.Format != "":
+						ctx.Count("load-layout-env-file-format")
+					case !f.Required:
+						ctx.Count("load-layout-env-file-optional")
+					}
+				}
+				if len(s.LabelFiles) > 1 {
+					ctx.Count("load-layout-label-files>1")
+				}
+			}
+		}
 		for _, s := range a.Services {
 			switch {
 			case s.YLabels != nil && s.YLabels.List != nil:
@@ -549,13 +582,27 @@ func c16FileLine(tag, k string, kind int, ref string) []c16Line {
 	return nil
 }
 
+var c16SiteN int
+
+// c16SiteLayout: a case with the Sites legs runs the second call site and one of the three layouts, in rotation
+func c16SiteLayout(ctx *core.Ctx, o *c16OracleArgs) {
+	c16SiteN++
+	o.SiteLayout = []string{"include", "extends", "extends-split"}[c16SiteN%3]
+	ctx.Count("oracle-sites-legs")
+	ctx.Count("oracle-sites-layout-" + o.SiteLayout)
+}
+
 func c16OracleExhaustive(ctx *core.Ctx) {
 	n := 0
 	add := func(kind string, o c16OracleArgs) {
 		n++
 		o.Discard = n%2 == 0
 		o.ListForm = n%3 == 0
+		o.Sites = n%4 == 1 && !o.NoLoad
 		ctx.Count(kind)
+		if o.Sites {
+			c16SiteLayout(ctx, &o)
+		}
 		ctx.Add("c16.oracle", o)
 	}
 	// E1: one key over {penv, f1, f2, f3} × environment state × how each file mentions it
@@ -671,6 +718,9 @@ func c16OracleUnderFile(ctx *core.Ctx) {
 					o.EnvLayers = append(o.EnvLayers, l)
 				}
 				ctx.Count("oracle-env-file-under-regular-file")
+				if o.Sites = !o.NoLoad; o.Sites {
+					c16SiteLayout(ctx, &o)
+				}
 				ctx.Add("c16.oracle", o)
 			}
 		}
@@ -705,6 +755,9 @@ func c16OracleOperators(ctx *core.Ctx) {
 				o.EnvLayers = []c16Layer{{Path: "F1.env", Present: true, Required: true, Lines: f1}, {Path: "F2.env", Present: true, Required: true, Lines: f2}}
 				o.LabelLayers = []c16Layer{{Path: "LF1.lbl", Present: true, Required: true, Lines: f1}, {Path: "LF2.lbl", Present: true, Required: true, Lines: f2}}
 				ctx.Count("oracle-operators")
+				if o.Sites = !o.NoLoad; o.Sites {
+					c16SiteLayout(ctx, &o)
+				}
 				ctx.Add("c16.oracle", o)
 			}
 		}
@@ -759,6 +812,9 @@ func c16OracleRandom(ctx *core.Ctx) {
 			o.LabelLayers = append(o.LabelLayers, c16Layer{Path: tag + ".lbl", Present: r.Intn(25) != 0, Required: true, Lines: lines(tag)})
 		}
 		o.NoLoad = i%ctx.Pick(3, 2) != 0
+		if o.Sites = !o.NoLoad && i%2 == 0; o.Sites {
+			c16SiteLayout(ctx, &o)
+		}
 		ctx.Count(fmt.Sprintf("oracle-random-%dkeys", nk))
 		ctx.Add("c16.oracle", o)
 	}
